@@ -13,6 +13,20 @@ STEPS = {"cmp_ok": "@TestType Absolute;\n@Precision 0.5;\n@Test 'a.res' 'b.res' 
          "cmd_ok": "@Command 'sh ok.sh';\n", "cmd_fail": "@Command 'sh fail.sh';\n"}
 
 
+SYS_CFG = """SPECIFICATION TraceSpec
+CONSTANTS
+  NChecks = %d
+  NW = %d
+  Failing <- TraceFailing
+  MaxSpurious = 0
+  WaitBeforeStatus = TRUE
+INVARIANTS ExactlyOnce Verdict NoBlockWithoutTask AtMostOneBlock PoolInvariants
+CONSTRAINT TrackMaxL
+POSTCONDITION ReportMaxL
+CHECK_DEADLOCK FALSE
+"""
+
+
 def make_set(d, rnd, n, with_commands, small=False):
     os.makedirs(d)
     open(os.path.join(d, "a.res"), "w").write("c1\n1.0\n2.0\n")
@@ -65,6 +79,21 @@ def run(ctx):
     mut = ctx.tlc("system/TfelCheck", cfg=open(os.path.join(core.SPEC, "system/TfelCheck_MC.cfg")).read().replace("AtomicAppend = TRUE", "AtomicAppend = FALSE"), workers=2)
     if mut.violated != "Contiguous":
         raise Broken("the line-by-line append mutant is not rejected: Contiguous is vacuous")
+    # the whole: the pool protocol (ThreadPool.tla, INSTANCEd) driven as tfel-check drives it
+    sysstates = systrans = 0
+    sysnotes = []
+    for cfg, expect in (("TfelCheckSystem_MC.cfg", None), ("TfelCheckSystem_live.cfg", None), ("TfelCheckSystem_mutant.cfg", "ExactlyOnce")):
+        rs = ctx.tlc("system/TfelCheckSystem", cfg=cfg, workers=4)
+        sysstates += rs.distinct
+        systrans += rs.generated
+        if expect is None:
+            if not rs.ok:
+                ctx.violation("model:TfelCheckSystem:" + str(rs.violated), "TfelCheckSystem.tla (%s) violates %s" % (cfg, rs.violated), None)
+        elif rs.violated != expect:
+            raise Broken("%s should be rejected with %s, TLC says %s" % (cfg, expect, rs.violated))
+        else:
+            sysnotes.append("%s rejected with %s (the status read before wait() returned)" % (cfg, expect))
+    nsys = nsysev = 0
     exe = os.path.join(core.BUILD, "tfel-check/src/tfel-check")
     rnd = random.Random(ctx.seed)
     #        checks, jobs, commands?
@@ -82,6 +111,11 @@ def run(ctx):
         d = ctx.path("set-%d" % i)
         allc, fails = make_set(d, rnd, n, cmds, small=bool(slow.get(i)))
         env = {"TFEL_VERIF_PERTURB": str(ctx.seed * 100 + i)}
+        # the events of the pool are recorded for the runs without @Command (the whole: TfelCheckSystem.tla = ThreadPool.tla x this driver)
+        ptrace = os.path.join(d, "pool-events.ndjson") if (not cmds and not slow.get(i)) else None
+        if ptrace:
+            open(ptrace, "w").close()
+            env["TFEL_VERIF_TRACE"] = ptrace
         cmd = [exe, "-j", str(j), "--discard-jobs-limit=true"]
         if slow.get(i):
             cmd = ["strace", "-f", "-o", "/dev/null", "-P", "tfel-check.log", "-e", "trace=write,writev",
@@ -101,7 +135,38 @@ def run(ctx):
         nev += len(ev)
         if i == 2:
             samples = ev[:8] + ev[-1:]
-        if v["accepted"] and not getattr(ctx, "binding_selftests", None):
+        if ptrace:
+            pool = [{"e": x["e"], "a": x["a"], "b": x["b"]} for x in core.read_ndjson(ptrace)
+                    if x["e"] in ("Enqueue", "Dequeue", "Idle", "WaitEnter", "WaitQueueEmpty", "WaitReturn", "Stop", "WorkerExit", "Joined")]
+            if not any(x["e"] == "Dequeue" for x in pool):
+                raise Broken("no Dequeue event recorded by tfel-check: hooks not compiled in")
+            blocks = [x["c"] for x in ev if x["e"] == "Begin"]
+            sev = pool + [{"e": "Log", "n": len(blocks), "distinct": int(len(set(blocks)) == len(blocks) and set(blocks) <= set(allc))},
+                          {"e": "Exit", "rc": r.returncode, "nfail": len(fails)}]
+            scfg = SYS_CFG % (n, j)
+            sv = validate_trace(ctx, "system/TfelCheckSystemTrace", scfg, sev, name="tcsys", dfs=True)
+            nsys += 1
+            nsysev += len(sev)
+            if not sv["accepted"]:
+                at = sev[sv["maxl"] - 1] if 0 < sv["maxl"] <= len(sev) else None
+                what = ("invariant %s of TfelCheckSystem.tla violated by a run of tfel-check -j %d on %d files" % (sv["violated"], j, n)) if sv["violated"] else \
+                    ("run of tfel-check -j %d on %d files not explained by TfelCheckSystem.tla at event %d: %s" % (j, n, sv["maxl"], json.dumps(at)[:200]))
+                ctx.violation("system:%s" % (sv["violated"] or "rejected:" + (at or {}).get("e", "?")), what, dict(desc, trace=sv["file"], event=at))
+            elif nsys == 1:
+                def lost_block(e):
+                    k = next(x for x in e if x["e"] == "Log")
+                    k["n"] -= 1
+                binding_selftest(ctx, "system/TfelCheckSystemTrace", scfg, sev, lost_block, "a run of tfel-check whose log misses the block of one .check file", dfs=True)
+
+                def wrong_status(e):
+                    e[-1]["rc"] = 1 - e[-1]["rc"]
+                binding_selftest(ctx, "system/TfelCheckSystemTrace", scfg, sev, wrong_status, "a run of tfel-check with the other exit status", dfs=True)
+
+                def dequeue_twice(e):
+                    i = next(k for k, x in enumerate(e) if x["e"] == "Dequeue")
+                    e.insert(i + 1, dict(e[i]))
+                binding_selftest(ctx, "system/TfelCheckSystemTrace", scfg, sev, dequeue_twice, "a run of tfel-check in which a worker dequeues twice in a row", dfs=True)
+        if v["accepted"] and not any("verdict of one check" in x for x in getattr(ctx, "binding_selftests", [])):
             def flip_verdict(e):
                 k = next((x for x in e if x["e"] == "End"), None)
                 if k is None:
@@ -114,7 +179,8 @@ def run(ctx):
                           "tfel-check -j %d log / exit status not explained by TfelCheck.tla at event %d: %s (%s)" % (j, v["maxl"], json.dumps(at)[:200], desc),
                           dict(desc, trace=v["file"], event=at))
     return finish(ctx, "model_checking", {
-        "states": mc.distinct + mut.distinct, "transitions": mc.generated + mut.generated, "traces_validated_against_impl": ntr,
+        "states": mc.distinct + mut.distinct + sysstates, "transitions": mc.generated + mut.generated + systrans, "traces_validated_against_impl": ntr + nsys,
+        "system_traces_validated": nsys, "system_events_validated": nsysev, "system_model": sysnotes,
         "events_validated": nev, "samples": samples, "plan": [{"checks": a, "jobs": b, "commands": c} for a, b, c in plan],
         "mutant_rejected_with": mut.violated},
         ["the log is parsed line by line: beginning / end lines delimit blocks, any other line must lie inside the open block",
